@@ -30,6 +30,8 @@ def corpus_cases(pid):
                 j = json.load(open(os.path.join(d, f)))
                 items = j if isinstance(j, list) else [j]
                 for it in items:
+                    if 'filter' not in it:
+                        continue          # a text case of the regression corpus (tools/corpus.py replays those)
                     out.append(Case(it.get('id', f), tuplify(it['filter']), tuplify(it['stages']), it['input'],
                                     it.get('tags', ()), it.get('mode', 'json'), it.get('note')))
     return out
